@@ -109,3 +109,85 @@ if __name__ == '__main__':
     props = [a for a in sys.argv[1:] if a.startswith('C')]
     s = run_all(props or None)
     sys.exit(0)
+
+
+# ---------------------------------------------------------------------------------------------- kept seeded changes
+def apply_unified_diff(root: str, diff_text: str):
+    """Apply a `git diff` to files under root in memory; returns overlay {relpath: new source} or None if a hunk does not apply."""
+    import re
+    overlay = {}
+    cur = None
+    lines = diff_text.splitlines()
+    i = 0
+    while i < len(lines):
+        ln = lines[i]
+        if ln.startswith('+++ '):
+            path = ln[4:].strip()
+            cur = path[2:] if path.startswith('b/') else path
+            if cur not in overlay:
+                with open(os.path.join(root, cur), encoding='utf-8') as f:
+                    overlay[cur] = f.read().split('\n')
+            offset = 0
+            i += 1
+            continue
+        m = re.match(r'@@ -(\d+)(?:,(\d+))? \+(\d+)(?:,(\d+))? @@', ln)
+        if m and cur is not None:
+            old_start = int(m.group(1))
+            i += 1
+            old_block, new_block = [], []
+            while i < len(lines) and not lines[i].startswith('@@') and not lines[i].startswith('diff --git') and not lines[i].startswith('--- '):
+                h = lines[i]
+                if h.startswith('\\'):
+                    i += 1
+                    continue
+                if h.startswith('-'):
+                    old_block.append(h[1:])
+                elif h.startswith('+'):
+                    new_block.append(h[1:])
+                else:
+                    old_block.append(h[1:] if h.startswith(' ') else h)
+                    new_block.append(h[1:] if h.startswith(' ') else h)
+                i += 1
+            src_lines = overlay[cur]
+            pos = old_start - 1 + offset
+            if src_lines[pos:pos + len(old_block)] != old_block:
+                found = [k for k in range(len(src_lines) - len(old_block) + 1) if src_lines[k:k + len(old_block)] == old_block]
+                if len(found) != 1:
+                    return None
+                pos = found[0]
+            src_lines[pos:pos + len(old_block)] = new_block
+            offset += len(new_block) - len(old_block)
+            continue
+        i += 1
+    return {k: '\n'.join(v) for k, v in overlay.items()}
+
+
+def run_seeded(props=None, root=None, verbose=True):
+    """Run the target property's check against every kept independent seeded change (/verif/seeded/<id>/patch.diff)."""
+    import json
+    from .__main__ import run_check
+    root = root or REPO
+    here = os.path.dirname(os.path.dirname(os.path.abspath(__file__)))
+    sd = os.path.join(here, 'seeded')
+    out = {'total': 0, 'reported': 0, 'missed': [], 'not_applicable': []}
+    for sid in sorted(os.listdir(sd)) if os.path.isdir(sd) else []:
+        mp = os.path.join(sd, sid, 'meta.json')
+        if not os.path.exists(mp):
+            continue
+        prop = json.load(open(mp))['property']
+        if props and prop not in props:
+            continue
+        ov = apply_unified_diff(root, open(os.path.join(sd, sid, 'patch.diff')).read())
+        if ov is None:
+            out['not_applicable'].append(sid)
+            continue
+        out['total'] += 1
+        code, R = run_check(prop, False, root=root, overlay=ov, quiet=True, write=False)
+        rules = sorted({o.rule for o in R.obs if o.status == 'VIOLATION'})
+        if code == 1:
+            out['reported'] += 1
+        else:
+            out['missed'].append({'id': sid, 'exit': code, 'error': getattr(R, 'error', '')})
+        if verbose:
+            print(sid, 'exit', code, rules)
+    return out
